@@ -516,6 +516,9 @@ func (fi *FuncInfo) loadTerm(v *ssa.UnOp) *Term {
 			return symTerm(fi.prefix + "mem:" + a.Name() + "@" + v.Name())
 		}
 	case *ssa.FieldAddr:
+		if sv := fi.freshFieldStore(a, v, 0); sv != nil {
+			return fi.T(sv)
+		}
 		if al, ok := a.X.(*ssa.Alloc); ok && al.Parent() == fi.Fn {
 			if sv := fi.SingleStore(a, v); sv != nil {
 				return fi.T(sv)
@@ -548,6 +551,141 @@ func (fi *FuncInfo) loadTerm(v *ssa.UnOp) *Term {
 		ver = fi.Version(keys, v)
 	}
 	return symTerm("*" + x.S + ver)
+}
+
+// forwardAlloc: v is an object allocated in this function, or a load that reads a pointer to one out of a field of
+// another such object before either has left the function's hands.
+func (fi *FuncInfo) forwardAlloc(v ssa.Value, depth int) *ssa.Alloc {
+	if depth > 3 {
+		return nil
+	}
+	switch x := v.(type) {
+	case *ssa.Alloc:
+		if x.Parent() == fi.Fn {
+			return x
+		}
+	case *ssa.UnOp:
+		if fa, ok := x.X.(*ssa.FieldAddr); ok && x.Op == token.MUL {
+			if sv := fi.freshFieldStore(fa, x, depth+1); sv != nil {
+				if al, ok := sv.(*ssa.Alloc); ok && al.Parent() == fi.Fn {
+					return al
+				}
+			}
+		}
+	}
+	return nil
+}
+
+// freshFieldStore: the load 'at' of a field of an object built in this function reads what the only store to that
+// field wrote, because no reference to the object can have been used elsewhere before the load.
+func (fi *FuncInfo) freshFieldStore(fa *ssa.FieldAddr, at ssa.Instruction, depth int) ssa.Value {
+	base := fi.forwardAlloc(fa.X, depth)
+	if base == nil || !base.Heap {
+		return nil
+	}
+	if len(fi.storesTo[base]) > 0 {
+		return nil
+	}
+	var sts []*ssa.Store
+	for a2, ss := range fi.storesTo {
+		f2, ok := a2.(*ssa.FieldAddr)
+		if !ok || f2.Field != fa.Field {
+			continue
+		}
+		if f2.X == ssa.Value(base) || fi.forwardAlloc(f2.X, depth+1) == base {
+			sts = append(sts, ss...)
+		}
+	}
+	if len(sts) != 1 || !instrDominates(sts[0], at) {
+		return nil
+	}
+	if fi.escapesBefore(base, at, 0) {
+		return nil
+	}
+	return sts[0].Val
+}
+
+// escapesBefore: a reference to the object may have reached code outside this function's straight use of it at a
+// point that can precede 'at' (within one pass from the allocation: a later iteration allocates a new object).
+func (fi *FuncInfo) escapesBefore(base *ssa.Alloc, at ssa.Instruction, depth int) bool {
+	if depth > 3 || base.Referrers() == nil {
+		return true
+	}
+	mayPrecede := func(r ssa.Instruction) bool {
+		if r.Block() == at.Block() {
+			for _, in := range r.Block().Instrs {
+				if in == r {
+					return true
+				}
+				if in == at {
+					return false
+				}
+			}
+		}
+		if instrDominates(at, r) {
+			return false
+		}
+		return fi.reachesForward(r.Block(), at.Block())
+	}
+	for _, r := range *base.Referrers() {
+		switch r := r.(type) {
+		case *ssa.FieldAddr, *ssa.DebugRef:
+		case *ssa.UnOp:
+		case *ssa.Store:
+			if r.Val != ssa.Value(base) {
+				continue
+			}
+			if f2, ok := r.Addr.(*ssa.FieldAddr); ok {
+				if outer := fi.forwardAlloc(f2.X, depth+1); outer != nil && outer != base && outer.Heap {
+					if fi.escapesBefore(outer, at, depth+1) {
+						return true
+					}
+					continue
+				}
+			}
+			if mayPrecede(r) {
+				return true
+			}
+		default:
+			if mayPrecede(r) {
+				return true
+			}
+		}
+	}
+	return false
+}
+
+// reachesForward: 'to' can be reached from 'from' without taking a back edge.
+func (fi *FuncInfo) reachesForward(from, to *ssa.BasicBlock) bool {
+	seen := map[int]bool{}
+	var walk func(b *ssa.BasicBlock) bool
+	walk = func(b *ssa.BasicBlock) bool {
+		if b == to {
+			return true
+		}
+		if seen[b.Index] {
+			return false
+		}
+		seen[b.Index] = true
+		for _, sc := range b.Succs {
+			if fi.IsBackEdge(b, sc) {
+				continue
+			}
+			if walk(sc) {
+				return true
+			}
+		}
+		return false
+	}
+	for _, sc := range from.Succs {
+		if fi.IsBackEdge(from, sc) {
+			continue
+		}
+		if walk(sc) {
+			return true
+		}
+	}
+	return false
 }
 
 // resolveCell follows a captured variable through nested closures to the Alloc that holds it.
